@@ -1,5 +1,4 @@
 use model::data::{Component, U32, U16, Trame, to_vec, Message, DataType, DynOption, MessageOption, Check, Array};
-use model::unicode::Unicode;
 use model::error::{RdpResult, RdpError, RdpErrorKind, Error};
 use core::per;
 use std::io::{Cursor, Read};
@@ -209,11 +208,16 @@ pub fn client_core_data(parameter: Option<ClientData>) -> Component {
             name: "".to_string()
         });
 
-    let client_name = if client_parameter.name.len() >= 16 {
-        (&client_parameter.name[0..16]).to_string()
-    } else {
-        client_parameter.name.clone() + &"\x00".repeat(16 - client_parameter.name.len())
-    };
+    // clientName is a fixed 32 bytes field : at most 15 UTF-16 code units
+    // (never half of a surrogate pair) padded with null terminators
+    let mut client_name: Vec<u16> = client_parameter.name.encode_utf16().take(15).collect();
+    if let Some(last) = client_name.last() {
+        if *last >= 0xD800 && *last < 0xDC00 {
+            client_name.pop();
+        }
+    }
+    client_name.resize(16, 0);
+    let client_name: Vec<u8> = client_name.iter().flat_map(|c| c.to_le_bytes().to_vec()).collect();
 
     component![
         "version" => U32::LE(client_parameter.rdp_version as u32),
@@ -223,7 +227,7 @@ pub fn client_core_data(parameter: Option<ClientData>) -> Component {
         "sasSequence" => U16::LE(Sequence::RnsUdSasDel as u16),
         "kbdLayout" => U32::LE(client_parameter.layout as u32),
         "clientBuild" => U32::LE(3790),
-        "clientName" => client_name.to_string().to_unicode(),
+        "clientName" => client_name,
         "keyboardType" => U32::LE(KeyboardType::Ibm101102Keys as u32),
         "keyboardSubType" => U32::LE(0),
         "keyboardFnKeys" => U32::LE(12),
